@@ -110,6 +110,19 @@ def cases(draw, opts):
 NONASSOC = [0.1, 0.2, 0.3, 0.7, 1e16, -1e16, 1.0, 3.3, 1e-17, 1.0 / 3.0, 5e-324, 1e308, 7, -3]
 
 
+def folded_constants_finite(t):
+    """a sub-term without any reference is computed by Python before the library sees it; the property speaks of finite
+    constants, so a folded product such as 1e16 * 1e308 (= inf, which no source text can name) is not generated"""
+    import math
+    if not E.has_ref(t):
+        try:
+            v = E.mirror(t, {})
+        except Exception:
+            return False
+        return not isinstance(v, float) or math.isfinite(v)
+    return all(folded_constants_finite(x) for x in E.subterms(t))
+
+
 @st.composite
 def assoc_cases(draw):
     """association probes: definitions that are chains of ONE operator family (+ -, or * /) with a drawn bracketing over
@@ -133,7 +146,7 @@ def assoc_cases(draw):
         ops = draw(st.sampled_from([["+"], ["+", "-"], ["*"], ["*", "/"], ["+", "-"], ["-"]]))
         for _ in range(8):
             t = tree(draw(st.integers(3, 5)), ops, leaves)
-            if E.has_ref(t[2]) or E.has_ref(t[3]):
+            if (E.has_ref(t[2]) or E.has_ref(t[3])) and folded_constants_finite(t):
                 return t
         return ["bin", ops[0], W.ast_loc(leaves[0]), ["bin", ops[0], W.ast_loc(leaves[1]), W.ast_loc(leaves[2])]]
     ops = [{"op": "sete", "loc": W.json_loc(x), "ast": chain([a, b, c])}]
@@ -327,7 +340,7 @@ def exec_case(ctx, case):
 
 def run(ctx):
     n = ctx.n(300, 3000)
-    opts = H.Opts(ftasks=False, knobs=False, maint=False, max_ops=25, math_builtins=False, eq=True)
+    opts = H.Opts(ftasks=False, knobs=False, maint=False, max_ops=25, math_builtins=False, eq=True, fresh=True, divmod_item=True)
     drive(ctx, cases(opts), lambda c: exec_case(ctx, c), n, salt=1, label="C13")
     flat = H.Opts(ftasks=False, knobs=False, maint=False, max_ops=20, math_builtins=False, nested=False, setc=False)
     drive(ctx, cases(flat), lambda c: exec_case(ctx, c), max(30, n // 4), salt=2, label="C13 flat")
